@@ -20,7 +20,9 @@ Documented rules used:
   both client certificates.  A client presents its signing certificate (followed by its
   encryption certificate when it has one) if it has one the server's advertised CA list
   accepts (a callback decides for itself), and nothing otherwise;
-* a second connection with the same configurations resumes iff both sides have a cache.
+* a second connection with the same configurations resumes iff both sides have a cache and
+  the server's policy admits the recorded session (a NoClientCert server does not resume a
+  session that recorded client certificates; it then does a full handshake again).
 -/
 import Gotlcp.Model.NegotiateCfg
 
@@ -124,8 +126,12 @@ def expectedWith (resumed : Bool) (c : ClientCfg) (s : ServerCfg) : Agreed :=
 
 def expected (c : ClientCfg) (s : ServerCfg) : Agreed := expectedWith false c s
 
-/-- a second connection resumes iff both sides cache sessions -/
-def resumable (c : ClientCfg) (s : ServerCfg) : Bool := c.cache && s.cache
+/-- a second connection resumes iff both sides cache sessions — except that a server whose
+policy is NoClientCert does not resume a session that recorded client certificates (ECDHE):
+it falls back to a full handshake -/
+def resumable (c : ClientCfg) (s : ServerCfg) : Bool :=
+  c.cache && s.cache &&
+  !(s.auth == .noClientCert && !(clientCertsSeen c s ((mutualSuite c s).getD 0)).isEmpty)
 
 def expectedNext (c : ClientCfg) (s : ServerCfg) : Agreed := expectedWith (resumable c s) c s
 
